@@ -39,9 +39,13 @@ func Families(family string, seed int64, count int) []Driver {
 			}
 			out = append(out, newWorkload(name, s, workloadOpts{cfg: cfg, nRPC: 1 + rng.Intn(3), disturb: d, volume: i%3 == 0}))
 		case "cancel":
-			out = append(out, newWorkload(name, s, workloadOpts{cfg: cfg, nRPC: 1 + rng.Intn(3), disturb: "cancel", volume: i%3 == 0, meta: i%2 == 0}))
+			out = append(out, newWorkload(name, s, workloadOpts{cfg: cfg, nRPC: 1 + rng.Intn(3), disturb: "cancel", volume: i%3 == 0, meta: i%2 == 0, precancel: i%2 == 1}))
 		case "shutdown":
-			out = append(out, newWorkload(name, s, workloadOpts{cfg: cfg, nRPC: 1 + rng.Intn(3), disturb: "shutdown"}))
+			d := "shutdown"
+			if cfg.Mode == "rev" {
+				d = []string{"shutdown", "shutdown", "shutdown+stop", "stop2"}[rng.Intn(4)]
+			}
+			out = append(out, newWorkload(name, s, workloadOpts{cfg: cfg, nRPC: 1 + rng.Intn(3), disturb: d}))
 		case "term0":
 			// revision zero, a consumer that never reads (the receive loop ends up parked in the
 			// one-slot hand-off), then a termination cause
